@@ -6,6 +6,7 @@ import Mathlib.Analysis.Calculus.Deriv.Inv
 import Mathlib.Analysis.Calculus.Deriv.Pow
 import Mathlib.Analysis.Calculus.Deriv.Mul
 import GPVerif.Bridge.ScalarReal
+import Mathlib.Analysis.SpecialFunctions.Sqrt
 
 /-- `l ↦ c/|l|` has derivative `−(c/|ℓ|)/ℓ` at every `ℓ ≠ 0` (both signs of `ℓ`) -/
 theorem hasDerivAt_div_abs (c ℓ : ℝ) (hℓ : ℓ ≠ 0) :
@@ -39,3 +40,53 @@ theorem hasDerivAt_scaledDist (x1 x2 m : List ℝ) (c ℓ : ℝ) (hℓ : ℓ ≠
   simp only [dist_rowDivS]
   have h := (hasDerivAt_div_abs (dist (rowSub x1 m) (rowSub x2 m)) ℓ hℓ).mul_const c
   exact h.congr_deriv (by ring)
+
+open Filter Topology Asymptotics in
+/-- chain rule through `r = √(C + (x−β)²/λ²)` that survives `r = 0`: if `g' r = r · G r` (so `g' 0 = 0`) then
+`x ↦ g(r(x))` has derivative `G(r)·(x−β)/λ²` at EVERY `x`. -/
+theorem hasDerivAt_radial (g G : ℝ → ℝ) (hg : ∀ r, HasDerivAt g (r * G r) r) (C β lam x : ℝ) (hC : 0 ≤ C)
+    (hlam : lam ≠ 0) :
+    HasDerivAt (fun x : ℝ => g (Real.sqrt (C + (x - β) ^ 2 / lam ^ 2)))
+      (G (Real.sqrt (C + (x - β) ^ 2 / lam ^ 2)) * ((x - β) / lam ^ 2)) x := by
+  have hl2 : 0 < lam ^ 2 := by positivity
+  have hnn : 0 ≤ (x - β) ^ 2 / lam ^ 2 := by positivity
+  rcases (add_nonneg hC hnn).lt_or_eq with hpos | hzero
+  · have hu : HasDerivAt (fun x : ℝ => C + (x - β) ^ 2 / lam ^ 2) (2 * (x - β) / lam ^ 2) x := by
+      have := ((((hasDerivAt_id x).sub_const β).pow 2).div_const (lam ^ 2)).const_add C
+      exact this.congr_deriv (by simp)
+    have hr := hu.sqrt (ne_of_gt hpos)
+    have hrpos : 0 < Real.sqrt (C + (x - β) ^ 2 / lam ^ 2) := Real.sqrt_pos.mpr hpos
+    have hc := (hg (Real.sqrt (C + (x - β) ^ 2 / lam ^ 2))).comp x hr
+    have key : ∀ r : ℝ, r ≠ 0 → r * G r * (2 * (x - β) / lam ^ 2 / (2 * r)) = G r * ((x - β) / lam ^ 2) := by
+      intro r hr; field_simp
+    exact hc.congr_deriv (key _ (ne_of_gt hrpos))
+  · -- r(x) = 0: C = 0 and x = β
+    have hC0 : C = 0 := by linarith
+    have hx0 : (x - β) ^ 2 / lam ^ 2 = 0 := by linarith
+    have hxb : x = β := by
+      have : (x - β) ^ 2 = 0 := by
+        rcases div_eq_zero_iff.mp hx0 with h | h
+        · exact h
+        · exact absurd h (ne_of_gt hl2)
+      have := pow_eq_zero_iff (n := 2) (by norm_num) |>.mp this
+      linarith
+    subst hC0; subst hxb
+    simp only [zero_add, sub_self, ne_eq, OfNat.ofNat_ne_zero, not_false_eq_true, zero_pow, zero_div, Real.sqrt_zero,
+      mul_zero]
+    have h0 : HasDerivAt g 0 0 := by simpa using hg 0
+    set ρ : ℝ → ℝ := fun y => Real.sqrt ((y - x) ^ 2 / lam ^ 2) with hρ
+    have hρx : ρ x = 0 := by simp [hρ]
+    have hcont : Continuous ρ := by
+      simp only [hρ]; fun_prop
+    have htend : Tendsto ρ (𝓝 x) (𝓝 0) := by
+      have := hcont.tendsto x; rwa [hρx] at this
+    have hlo := (hasDerivAt_iff_isLittleO.mp h0).comp_tendsto htend
+    have hbig : (fun y => ρ y - 0) =O[𝓝 x] (fun y => y - x) := by
+      refine IsBigO.of_bound (1 / |lam|) (Filter.Eventually.of_forall fun y => ?_)
+      simp only [hρ, sub_zero, Real.norm_eq_abs]
+      rw [Real.sqrt_div (sq_nonneg _), Real.sqrt_sq_eq_abs, Real.sqrt_sq_eq_abs, abs_div, abs_abs, abs_abs]
+      exact le_of_eq (by ring)
+    have := hlo.trans_isBigO hbig
+    rw [hasDerivAt_iff_isLittleO]
+    refine this.congr_left fun y => ?_
+    simp [Function.comp, hρ]
